@@ -93,7 +93,7 @@ func init() {
 		"absence of run-time panics (index, nil) in the numeric code paths in general; the cell (+0)+(-0) under ToNegativeInf is left unconstrained (the code follows math/big, see DESIGN §5 F15)",
 		techCDAI, cdaiAssume, fxAssume)
 	p("C05",
-		[]string{"T-UNARY@Sqrt(", "FX-STICKY@(*Decimal).Sqrt|sqrtInverse", "FX-RBW@(*Decimal).Sqrt", "FX-RAW@(*Decimal).Sqrt|sqrtInverse", "FX-GLOBAL@oneHalf|three", "FX-IMMUT@(*Decimal).Sqrt|sqrtInverse"},
+		[]string{"T-UNARY@Sqrt(", "FX-STICKY@(*Decimal).Sqrt|sqrtInverse", "FX-RBW@(*Decimal).Sqrt", "FX-RAW@(*Decimal).Sqrt|sqrtInverse", "FX-GLOBAL@oneHalf|three", "FX-IMMUT@(*Decimal).Sqrt|sqrtInverse", "MODE@Sqrt"},
 		[]string{
 			"T-UNARY for Sqrt: special values; the receiver's precision and rounding mode are the same after the call as before (also on the finite path, where the root computation is entered with the receiver's precision and mode and a non-negative value).",
 			"FX-STICKY: precision and mode of the receiver are restored on every exit of Sqrt (through MantExp -> Copy).",
@@ -112,11 +112,11 @@ func init() {
 		"that Karatsuba, schoolbook and recursive code compute the same product/quotient (arithmetic), buffer-length contracts (len(z) >= 6n), the partial clear in mul, the numeric `impossible` guards: NOT APPLICABLE to static analysis",
 		"provenance dataflow on stored words, use-def of kernel results, dominance of alias guards and initialisers, slice-root analysis", fxAssume)
 	p("C08",
-		[]string{"WORD", "NORM", "EXP", "PREC0", "ENUM", "FX-OWN", "GOB@G2", "SIGN@usub", "DECNORM", "LOWCUT"},
+		[]string{"WORD", "NORM", "EXP", "PREC0", "ENUM", "FX-OWN", "GOB@G2|G4", "SIGN@usub", "DECNORM", "LOWCUT"},
 		[]string{
-			"An inductive invariant over all operation sequences, one clause per rule, the induction step being per exported method: words < base (WORD, and GOB G2 for decoded words); a computed mantissa is normalised and rounded before it can be observed as finite (NORM); the exponent stays within [MinExp, MaxExp] (EXP); finite implies precision > 0 (PREC0 and GOB G2 digits<=prec); form, mode and acc hold declared enumerators only (ENUM); each Decimal owns its mantissa array (FX-OWN).",
+			"An inductive invariant over all operation sequences, one clause per rule, the induction step being per exported method: words < base (WORD, and GOB G2 for decoded words); a computed mantissa is normalised and rounded before it can be observed as finite (NORM); the exponent stays within [MinExp, MaxExp] (EXP); finite implies precision > 0 (PREC0 and GOB G2 digits<=prec; GOB G4: a receiver that keeps its own smaller precision gets the decoded value rounded into it through SetPrec, never a plain store of the precision); form, mode and acc hold declared enumerators only (ENUM); each Decimal owns its mantissa array (FX-OWN).",
 		},
-		"`no non-zero digit beyond the precision` (the arithmetic of round's lsd) and normalisation of values returned by dec-layer functions (they end in .norm(); not re-derived)",
+		"`no non-zero digit beyond the precision` (the arithmetic of round's lsd)",
 		"typestate and provenance dataflow on the SSA form, dominance of range tests", fxAssume)
 	p("C07",
 		[]string{"CONST", "ASM", "ASM-PURE", "BUILDTAGS", "FX-IMMUT@_g/|VV/|VW/|VU/|WW/", "OVERLAP"},
@@ -203,21 +203,22 @@ func init() {
 		"that ucmp's zero-padding loop compares the right words (loop arithmetic)",
 		techCDAI, cdaiAssume, fxAssume)
 	p("C17",
-		[]string{"GOB", "FX-OWN@GobDecode"},
+		[]string{"GOB", "FX-OWN@GobDecode", "MODE@GobDecode", "LOWCUT@GobEncode"},
 		[]string{
 			"GOB G1: every buf[k], buf[k:] and fixed-width read in GobDecode is dominated by a comparison establishing len(buf) >= what it needs (no panic on truncated input).",
 			"G2: the decoded mode, accuracy and form are compared with the largest enumerator before being stored; the decoded mantissa is rejected unless non-empty, normalised (top word >= base/10), every word < base (a test inside a loop over the mantissa whose header dominates the store) and its digit count fits the decoded precision (so finite implies precision > 0); it is decoded into a fresh buffer.",
 			"G3: GobEncode and GobDecode agree on (shift, mask, bias) of every header field and on the byte offsets of prec, exp and mantissa.",
 			"G4: a receiver whose precision was not 0 gets its precision and mode back (every success exit passes the restoring block, which calls SetPrec(oldPrec), i.e. rounds); G5: the version is tested before anything is decoded.",
+			"MODE: in GobDecode the receiver's own rounding mode is back in force before SetPrec rounds the decoded value into the receiver's precision (a mode written after the rounding call means the sender's mode did the rounding); LOWCUT: GobEncode encodes the top (most significant) words of the mantissa, never a prefix m[:n].",
 		},
 		"value equality after a round trip (word order inside dec.bytes/setBytes is loop arithmetic)",
 		"dominance/interval analysis on the SSA form of GobDecode plus sibling agreement with GobEncode", fxAssume)
 	p("C19",
-		[]string{"CTX", "FX-IMMUT@context."},
+		[]string{"CTX", "FX-IMMUT@context.", "MODE@context."},
 		[]string{
 			"CTX T1: every Context operation with a result parameter z tests c.err before any effect and, while latched, returns z from a block without calls or stores; T2: the decimal operation is applied to c.apply(z) (Set: c.apply(z.Copy(x))) and apply leaves z with c.mode and c.prec on every path.",
 			"T3: every operation whose decimal counterpart may panic with ErrNaN (computed over the call graph) defers a handler that calls recover, latches into c.err only a value whose dynamic type was asserted to be decimal.ErrNaN, re-panics anything else with the original value, and sets the named result to z; T4: operations without a handler call only operations that cannot panic with ErrNaN.",
-			"T5: c.err is written only by those handlers and by Err, which returns the value loaded before clearing; T6: the New* factories build on c.New(), which carries c.mode and c.prec; T7: SetMode/SetPrec/New store their (clamped) arguments. FX-IMMUT: operands of Context operations are never written.",
+			"T5: c.err is written only by those handlers and by Err, which returns the value loaded before clearing; T6: the New* factories build on c.New(), which carries c.mode and c.prec; T7: SetMode/SetPrec/New store their (clamped) arguments. FX-IMMUT: operands of Context operations are never written. CTX(T2)/mode-before-rounding and MODE: apply installs the context's mode before SetPrec rounds (Context.Set and friends hand apply a z that already holds the value).",
 		},
 		"numeric correctness of the wrapped operation (C01); that NewFloat64(NaN) panics through a Context is recorded as an observation, not armed",
 		"typestate rules on the SSA form of package context (dominance of the latch test, must-call of apply, shape of the deferred recover handlers)", fxAssume)
